@@ -1,34 +1,3 @@
-import OpacusLean.Model.Binary64
-/-! GENERATED by vharness/props/c08_trans.py from privacy_engine.py, accountants/utils.py, utils/uniform_sampler.py – do not edit. -/
+/-! GENERATED – float bookkeeping (privacy_engine.py, accountants/utils.py, utils/uniform_sampler.py) is outside the translator's subset: float bookkeeping expression: len(self.dataset) -/
 namespace Opacus.Generated.Float
-open Opacus.Binary64
-
-/-- `make_private`: `sample_rate = …` (L = `len(data_loader)`, the DP loader) -/
-def sampleRate (L : Nat) : B64 :=
-  (fdiv (ofNat 1) (ofNat L))
-
-/-- `make_private`: `expected_batch_size = …` (N = `len(data_loader.dataset)`) -/
-def expectedBatchSize (N : Nat) (q : B64) : Nat :=
-  (trunc (fmul (ofNat N) q))
-
-/-- `make_private`, distributed: `expected_batch_size /= world_size` -/
-def expectedBatchSizeDist (E : Nat) (W : Nat) : B64 :=
-  (fdiv (ofNat E) (ofNat W))
-
-/-- `make_private_with_epsilon`: `sample_rate = …` (L = length of the ORIGINAL loader) -/
-def sampleRateWithEpsilon (L : Nat) : B64 :=
-  (fdiv (ofNat 1) (ofNat L))
-
-/-- `get_noise_multiplier`: `steps = …` when only `epochs` is given -/
-def calibSteps (epochs : Nat) (q : B64) : Nat :=
-  (trunc (fdiv (ofNat epochs) q))
-
-/-- `UniformWithReplacementSampler.__init__`: the default number of batches per epoch -/
-def samplerSteps (q : B64) : Nat :=
-  (trunc (fdiv (ofNat 1) q))
-
-/-- `DistributedUniformWithReplacementSampler.__init__`: the default number of batches per epoch -/
-def distSamplerSteps (q : B64) : Nat :=
-  (trunc (fdiv (ofNat 1) q))
-
 end Opacus.Generated.Float
